@@ -75,7 +75,8 @@ def make_case(rng, tier):
     return {"w": w, "h": h, "d": d, "env": env, "nenv": nenv, "edge": edge, "im": im, "ns": ns, "state": state, "chs": chs, "sample": sample,
             "fault": fault, "kind": kind, "units": sysgen.rand_sys(rng),
             # the state may be stated in another amount unit than the system's, and the system's units need not be the grid's
-            "state_units": sysgen.rand_sys(rng) if rng.random() < 0.5 else None, "sys_units": sysgen.rand_sys(rng) if rng.random() < 0.5 else None}
+            "state_units": sysgen.rand_sys(rng) if rng.random() < 0.5 else None, "sys_units": sysgen.rand_sys(rng) if rng.random() < 0.5 else None,
+            "traj_units": sysgen.rand_sys(rng) if rng.random() < 0.6 else None}
 
 
 def observe(c):
@@ -104,13 +105,12 @@ def observe(c):
            "state": [float(v) for v in cgs.state.convert(us).value], "flags": [bool(v) for v in cgs.chemostats]}
     # un-coarse-graining of one sample
     G = len(sp.nodes)
-    tr = strengths.RDTrajectory(data=U.UnitArray(list(c["sample"]), U.Units(us, U.UnitsDimensions(quantity=1))), t_sample=U.UnitArray([0.0], "s"),
-                                system=cgs, script=None, engine_description="x", engine_option="x") if hasattr(strengths, "RDTrajectory") else None
-    if tr is None:
-        from strengths.rdoutput import RDTrajectory
-        tr = RDTrajectory(data=U.UnitArray(list(c["sample"]), U.Units(us, U.UnitsDimensions(quantity=1))), t_sample=U.UnitArray([0.0], "s"),
-                          system=cgs, script=None, engine_description="x", engine_option="x")
-    out["uncg"] = [float(v) for v in cg.uncoarsegrain_trajectory_data(tr, grid, list(c["im"])).value]
+    from strengths.rdoutput import RDTrajectory
+    data = U.UnitArray(list(c["sample"]), U.Units(us, U.UnitsDimensions(quantity=1)))
+    if c.get("traj_units"):
+        data = data.convert(sysgen.py_sys(U, c["traj_units"]))          # the trajectory states its amounts in a unit of its own
+    tr = RDTrajectory(data=data, t_sample=U.UnitArray([0.0], "s"), system=cgs, script=None, engine_description="x", engine_option="x")
+    out["uncg"] = [float(v) for v in cg.uncoarsegrain_trajectory_data(tr, grid, list(c["im"])).convert(us).value]      # as amounts, not as bare numbers
     # simulating with the identity map reproduces the plain simulation (Euler)
     out["identity_ok"] = None
     if c["kind"] == "identity":
@@ -118,7 +118,7 @@ def observe(c):
         kw = dict(t_sample=[0.0, 0.25, 0.5], time_step=0.0625, units_system=us)
         t1 = strengths.simulate(system, engine=eng, **kw)
         t2 = strengths.simulate(system, engine=eng, cgmap=list(c["im"]), **kw)
-        a, b = [float(v) for v in t1.data.value], [float(v) for v in t2.data.value]
+        a, b = [float(v) for v in t1.data.convert(us).value], [float(v) for v in t2.data.convert(us).value]      # amounts, not bare numbers
         out["identity_ok"] = len(a) == len(b) and all(abs(x - y) <= 1e-9 * (abs(x) + abs(y)) for x, y in zip(a, b))
     return out
 
